@@ -77,6 +77,9 @@ SIGS3_PRE = {
 # small helpers
 
 
+SMALL_INPUT_TOL = 2e-2  # see `evaluate`: tolerance floor for the amplitude-3e-3 input of every model
+
+
 def jsig(sig) -> list:
     return [[[int(k), int(p)], int(c)] for (k, p), c in sig]
 
@@ -505,14 +508,18 @@ def evaluate(ctx: Ctx, cfg: dict) -> dict:
             obs["excluded_ties"] = obs["ill_conditioned"] = 0
             # ---- inputs; a model with pooling sees every candidate through the recorded (un-jitted) forward pass
             #      and a candidate with a max-pool tie is replaced (the property excludes ties)
-            xs = []
+            xs, smalls = [], []
             for i_in in range(cfg["n_inputs"]):
                 for _attempt in range(4):
                     x = equiv.random_blocks(rng, sig_in, D, spatial, kind="normal")
-                    if i_in == cfg["n_inputs"] - 1 and cfg.get("small_last_input", True):
-                        # the last input of every model has amplitude 1e-3: activations whose covariance is
-                        # comparable to the normalisation epsilons (where an epsilon in the wrong place shows)
-                        x = {k: np.asarray(v) * np.float32(1e-3) for k, v in x.items()}
+                    small = i_in == cfg["n_inputs"] - 1 and cfg.get("small_last_input", True)
+                    if small:
+                        # the last input of every model has amplitude 3e-3: activations whose covariance is
+                        # comparable to the normalisation epsilons (where an epsilon in the wrong place shows as a
+                        # defect of order 0.1 - 1).  Such inputs are badly conditioned in float32 (the whitening
+                        # amplifies rounding noise by ~1/sqrt(eps)): measured noise defects reach 4e-3, so this input
+                        # is judged with a tolerance of at least 2e-2 (SMALL_INPUT_TOL).
+                        x = {k: np.asarray(v) * np.float32(3e-3) for k, v in x.items()}
                     if trace is None or cfg["class"] == "unet":
                         stage = "forward pass on x"
                         events, out_shape, pools = traced_forward(model, x, D, torus)
@@ -527,6 +534,7 @@ def evaluate(ctx: Ctx, cfg: dict) -> dict:
                             obs["excluded_ties"] += 1
                             continue
                     xs.append(x)
+                    smalls.append(small)
                     break
             # ---- oracle
             stage = "evaluation of model(g.x) / model(shift.x)"
@@ -538,6 +546,9 @@ def evaluate(ctx: Ctx, cfg: dict) -> dict:
                 rec["output_finite"] = bool(all(np.all(np.isfinite(v)) for v in y.values()))
                 eta = equiv.noise_floor(model, x, D, torus, rng)
                 tol = equiv.tolerance(eta)
+                if tol is not None and smalls[i]:
+                    tol = max(tol, SMALL_INPUT_TOL)
+                    rec["small_amplitude"] = True
                 rec["eta"], rec["tol"] = eta, tol
                 if tol is None:
                     rec["excluded"] = "ill-conditioned in float32"
